@@ -388,6 +388,10 @@ func (i *Inst) soak(s *CcScript, rng *rand.Rand) (int, int) {
 				if j%5 == 0 {
 					t.SendRaw(tsgu.Keepalive())
 				}
+				if j%3 == 1 && t.WS != nil {
+					// a websocket ping (proxies and browsers send them): a control frame the transport answers itself
+					t.WS.WriteRawFrame(9, true, []byte("ping"))
+				}
 			}
 			// ending while the host is still sending
 			if bc != nil {
